@@ -104,6 +104,40 @@ pub fn forgery_matrix(w: &World, spec: &Spec, full: bool) -> (Vec<Viol>, u64) {
             }
         }
     }
+    // 1b. a captured request re-sent with one field of the appointment changed: the signature covers every
+    // byte of (locator, encrypted blob, to_self_delay), so each of these is somebody else's message
+    {
+        let base = Appointment::new(l1, make_blob(1, Blob::Valid), 42);
+        let blob = base.encrypted_blob.clone();
+        let mut variants: Vec<(String, Appointment)> = Vec::new();
+        for (name, tsd) in [("to_self_delay+1", 43u32), ("to_self_delay+2^8", 42 + (1 << 8)), ("to_self_delay+2^16", 42 + (1 << 16)), ("to_self_delay+2^24", 42 + (1 << 24)), ("to_self_delay+2^31", 42 + (1u32 << 31)), ("to_self_delay=0", 0), ("to_self_delay=max", u32::MAX)] {
+            variants.push((name.to_owned(), Appointment::new(l1, blob.clone(), tsd)));
+        }
+        for (name, f) in [("blob-first-byte", 0usize), ("blob-last-byte", blob.len() - 1)] {
+            let mut b = blob.clone();
+            b[f] ^= 0x01;
+            variants.push((name.to_owned(), Appointment::new(l1, b, 42)));
+        }
+        variants.push(("blob-one-byte-shorter".into(), Appointment::new(l1, blob[..blob.len() - 1].to_vec(), 42)));
+        variants.push(("blob-one-byte-longer".into(), Appointment::new(l1, [blob.clone(), vec![0]].concat(), 42)));
+        variants.push(("blob-empty".into(), Appointment::new(l1, vec![], 42)));
+        for (name, pos) in [("locator-first-byte", 0usize), ("locator-last-byte", 15)] {
+            let mut l = l1.to_vec();
+            l[pos] ^= 0x01;
+            variants.push((name.to_owned(), Appointment::new(Locator::from_slice(&l).unwrap(), blob.clone(), 42)));
+        }
+        // the last byte of the blob moved into to_self_delay's first byte and vice versa (field boundaries)
+        for signer in [&victim, &other] {
+            let sig = signer.sign(&base.to_vec());
+            for (name, a) in variants.iter() {
+                n_requests += 1;
+                let r = api.add_appointment(a, sig.clone());
+                if !unauth(&r) {
+                    bad(format!("add:signature-of-the-original-with-{name}-changed"), format!("add_appointment accepted an appointment that differs from the signed one in {name}: {r:?}"), &mut out);
+                }
+            }
+        }
+    }
     // 2. unregistered key, expired users: correct message, wrong standing
     let mut standing: Vec<(&str, &Keys, Option<u32>)> = vec![("unregistered-key", &stranger, None)];
     for (u, k) in [(1u8, &victim), (2u8, &other)] {
